@@ -627,6 +627,7 @@ nodesLoop:
 			var positionOfNil *ast.Position
 			positionOf := map[reflect.Type]*ast.Position{}
 			for _, cas := range node.Cases {
+				var clauseIdent *ast.Identifier // the variable of the guard as declared in this clause
 				tc.scopes.Enter(cas)
 				tc.addToAncestors(cas)
 				if cas.Expressions == nil {
@@ -655,6 +656,7 @@ nodesLoop:
 						ti := &typeInfo{Type: t.Type, Properties: propertyAddressable}
 						ident := ast.NewIdentifier(cas.Expressions[0].Pos(), name)
 						tc.scopes.Declare(name, ti, ident, nil)
+						clauseIdent = ident
 					}
 					// Check duplicate.
 					if pos, ok := positionOf[t.Type]; ok {
@@ -663,9 +665,15 @@ nodesLoop:
 					positionOf[t.Type] = ex.Pos()
 				}
 				if name != "" && len(cas.Expressions) != 1 {
-					tc.scopes.Declare(name, ti, ast.NewIdentifier(cas.Position, name), nil)
+					clauseIdent = ast.NewIdentifier(cas.Position, name)
+					tc.scopes.Declare(name, ti, clauseIdent, nil)
 				}
 				cas.Body = tc.checkNodes(cas.Body)
+				if clauseIdent != nil && tc.compilation.indirectVars[clauseIdent] {
+					// The variable escapes in this clause: the emitter is told
+					// through the identifier of the guard.
+					tc.compilation.indirectVars[node.Assignment.Lhs[0].(*ast.Identifier)] = true
+				}
 				used := name != "" && tc.scopes.Use(name)
 				tc.removeLastAncestor()
 				tc.scopes.Exit()
